@@ -31,6 +31,10 @@ ENDLESS = {
     "long-sleep": ("sleep 100;", True),
     "sleep-loop": ("while {true} do {sleep 1};", True),
     "two-sleepers": ("[] spawn {sleep 50}; sleep 70;", True),
+    # a start request made while the run is in progress is refused; the run's budget is not the requester's to renew
+    "start-request-loop": ('for "_i" from 0 to 1 step 0 do {vmctrl__ "start"};', False),
+    "start-request-loop-scheduled": ('gA = 0; while {true} do {gA = gA + 1; vmctrl__ "start"};', True),
+    "start-request-once": ('gT = time; for "_i" from 0 to 1 step 0 do {if (time - gT > 1) exitWith {}}; vmctrl__ "start"; for "_i" from 0 to 1 step 0 do {gA = 1};', False),
 }
 
 
